@@ -5,6 +5,7 @@ import (
 
 	"github.com/lugu/qiloop/bus"
 	"github.com/lugu/qiloop/bus/net"
+	"github.com/lugu/qiloop/vhook"
 )
 
 // NewServer starts a server listening on addr. If parameter auth is
@@ -23,6 +24,7 @@ func NewServer(addr string, auth bus.Authenticator) (bus.Server, error) {
 	sd := serviceDirectoryImpl()
 	namespace := sd.Namespace(addr)
 	service1 := ServiceDirectoryObject(sd)
+	vhook.Emit("directory", sd, "new", "addr", addr, "namespace", namespace)
 
 	s, err := bus.NewServer(listener, auth, namespace, service1)
 	if err != nil {
